@@ -4,6 +4,7 @@ package vs
 
 import (
 	"fmt"
+	"os"
 	"sort"
 	"strings"
 )
@@ -74,6 +75,7 @@ type stepInfo struct {
 	clock []int
 	kind  opKind
 	frame int
+	idx   int
 }
 
 func muLabel(m *Mutex) string   { return fmt.Sprintf("M%p", m) }
@@ -124,14 +126,14 @@ func accessesOf(kind opKind, op *Op, self *Thread) []access {
 	case opSend:
 		if op.ch != nil && !isNilChan(op.ch) {
 			a = append(a, access{op.ch.label() + ".SQ", true}, access{op.ch.label() + ".RD", true})
-			if self != nil && op.ch.npending(self, false) > 0 {
+			if (op.prepared && op.partner != nil) || (!op.prepared && self != nil && op.ch.npending(self, false) > 0) {
 				a = append(a, access{op.ch.label() + ".RQ", true})
 			}
 		}
 	case opRecv:
 		if op.ch != nil && !isNilChan(op.ch) {
 			a = append(a, access{op.ch.label() + ".RQ", true})
-			if self != nil && op.ch.npending(self, true) > 0 {
+			if (op.prepared && (op.partner != nil || op.letIn != nil)) || (!op.prepared && self != nil && op.ch.npending(self, true) > 0) {
 				a = append(a, access{op.ch.label() + ".SQ", true})
 			}
 		}
@@ -139,12 +141,20 @@ func accessesOf(kind opKind, op *Op, self *Thread) []access {
 		l := op.ch.label()
 		a = append(a, access{l + ".SQ", true}, access{l + ".RQ", true}, access{l + ".RD", true})
 	case opSelect:
-		for _, c := range op.cases {
-			if c != nil && !isNilChan(c) {
-				a = append(a, access{c.label() + ".RD", false}, access{c.label() + ".RQ", true})
-				if self != nil && c.npending(self, true) > 0 {
-					a = append(a, access{c.label() + ".SQ", true})
+		for i, c := range op.cases {
+			if c == nil || isNilChan(c) {
+				continue
+			}
+			if op.isSendCase(i) {
+				a = append(a, access{c.label() + ".SQ", true}, access{c.label() + ".RD", true})
+				if self != nil && c.npending(self, false) > 0 {
+					a = append(a, access{c.label() + ".RQ", true})
 				}
+				continue
+			}
+			a = append(a, access{c.label() + ".RD", false}, access{c.label() + ".RQ", true})
+			if self != nil && c.npending(self, true) > 0 {
+				a = append(a, access{c.label() + ".SQ", true})
 			}
 		}
 	case opLock, opUnlock:
@@ -171,6 +181,9 @@ func accessesOf(kind opKind, op *Op, self *Thread) []access {
 		}
 	case opChild:
 		a = append(a, access{"CHILDREN", true})
+	case opSleep:
+		// its enabledness depends on every other thread: dependent with everything, like exit
+		a = append(a, access{"PROC", true})
 	}
 	return a
 }
@@ -229,9 +242,15 @@ func (d *DPOR) Next() bool {
 			}
 		}
 		if found {
+			if DebugRaceAll {
+				fmt.Printf("NEXT: frame %d (%s) pick %s backtrack=%v done=%v sleep=%v\n", len(d.Stack)-1, f.Kind, pick, f.Backtrack, f.Done, f.Sleep)
+			}
 			f.Chosen = pick
 			f.Done[pick] = true
 			return true
+		}
+		if DebugRaceAll {
+			fmt.Printf("NEXT: pop frame %d (%s) backtrack=%v done=%v sleep=%v\n", len(d.Stack)-1, f.Kind, f.Backtrack, f.Done, f.Sleep)
 		}
 		d.Stack = d.Stack[:len(d.Stack)-1]
 	}
@@ -291,10 +310,18 @@ func (d *DPOR) PickThread(s *Sched, en []*Thread) *Thread {
 	s.Choices = append(s.Choices, Choice{Kind: "sched", N: len(en), Chosen: idx, Thread: t.id, Self: en[0] == s.cur})
 	frameIdx := s.depth
 	s.depth++
+	// branch choices of the step (ready case, partner) come first: a rendezvous is a joint
+	// transition, so the partner's op belongs to the step
+	s.prepareOp(t, t.pending)
 	// sleep set of the successor state
 	ns := map[string]bool{}
 	if !d.NoSleep {
 		base := baseObjs(t.pending)
+		for _, q := range []*Thread{t.pending.partner, t.pending.letIn} {
+			if q != nil {
+				base = append(base, opObjs(q.pending)...)
+			}
+		}
 		consider := func(q string) {
 			if q == t.id {
 				return
@@ -309,7 +336,7 @@ func (d *DPOR) PickThread(s *Sched, en []*Thread) *Thread {
 				return
 			}
 			// process exit disables everybody: dependent with every op
-			if qt.pending.kind == opExit || t.pending.kind == opExit {
+			if qt.pending.kind == opExit || t.pending.kind == opExit || qt.pending.kind == opSleep || t.pending.kind == opSleep {
 				return
 			}
 			if qt.pending.kind == opFS && t.pending.kind == opFS && !qt.pending.completed && !t.pending.completed {
@@ -368,6 +395,9 @@ func (d *DPOR) PickAlt(s *Sched, n int, what string) int {
 		panic(fmt.Sprintf("replay divergence: arity of %s is %d, chosen %d", what, n, k))
 	}
 	s.Choices = append(s.Choices, Choice{Kind: what, N: n, Chosen: k})
+	if DebugRaceAll {
+		fmt.Printf("ALT %s n=%d chosen=%d depth=%d thr=%s\n", what, n, k, s.depth, s.cur.id)
+	}
 	return k
 }
 
@@ -377,15 +407,49 @@ func (s *Sched) bookStep(t *Thread, frameIdx int, d *DPOR) {
 	if _, ok := s.tidx[t]; !ok {
 		s.tidx[t] = len(s.tidx)
 	}
-	ct := s.clockOf(t)
 	op := t.pending
+	s.prepareOp(t, op)
+	ct := s.clockOf(t)
 	if op.completed {
 		// partner performed the transfer; inherit its clock
 		ct = joinClk(ct, op.joinClk)
 	}
+	// ctExt: everything that causally precedes the upcoming transition itself (program order +
+	// the partner of a rendezvous + the send of the message it takes): used to find the
+	// initials of the sequence that has to run first when a race is reversed. ct proper (the
+	// thread's past) decides what is a race (Flanagan-Godefroid).
+	ctExt := append([]int{}, ct...)
+	if op.partner != nil {
+		ctExt = joinClk(ctExt, s.clockOf(op.partner))
+	}
+	if op.letIn != nil {
+		ctExt = joinClk(ctExt, s.clockOf(op.letIn))
+	}
+	if op.preClk != nil {
+		ctExt = joinClk(ctExt, op.preClk)
+	}
 	accs := accessesOf(op.kind, op, t)
+	if OptPartnerAccesses {
+		for _, q := range []*Thread{op.partner, op.letIn} {
+			if q != nil && q.pending != nil {
+				accs = append(accs, accessesOf(q.pending.kind, q.pending, q)...)
+			}
+		}
+	}
 	s.curAccs = accs
+	s.curRaceClk = ctExt
 	confl := s.detectRaces(t, accs, ct, d)
+	// a rendezvous is a joint transition of two threads: the partner's op (which never gets a
+	// step of its own) races with earlier steps too, e.g. with a select of the performing
+	// thread that ran before the partner had arrived
+	if d != nil && OptPartnerRaces {
+		for _, q := range []*Thread{op.partner, op.letIn} {
+			if q != nil && q.pending != nil {
+				s.detectRaces(q, accessesOf(q.pending.kind, q.pending, q), s.clockOf(q), d)
+			}
+		}
+	}
+	s.curRaceClk = nil
 	for _, i := range confl {
 		ct = joinClk(ct, s.steps[i].clock)
 	}
@@ -404,7 +468,7 @@ func (s *Sched) bookStep(t *Thread, frameIdx int, d *DPOR) {
 	s.clocks[t] = ct
 	snap := append([]int{}, ct...)
 	si := len(s.steps)
-	s.steps = append(s.steps, stepInfo{thr: t, clock: snap, kind: op.kind, frame: frameIdx})
+	s.steps = append(s.steps, stepInfo{thr: t, clock: snap, kind: op.kind, frame: frameIdx, idx: si})
 	for _, a := range accs {
 		vo := s.vobjs[a.obj]
 		if vo == nil {
@@ -532,27 +596,129 @@ func (s *Sched) finalRaces() {
 	}
 }
 
-// race: step st (earlier) and the next op of t are dependent, of co-enabled kinds and unordered.
+var DebugRaceAll bool
+
+// Engine variants (for measurements; the defaults are what conformance validates)
+var (
+	OptPartnerAccesses = os.Getenv("VS_NO_PARTNER_ACC") == ""  // joint step declares the partner's accesses
+	OptPartnerRaces    = os.Getenv("VS_NO_PARTNER_RACE") == "" // race check on behalf of the partner
+	OptRule2           = os.Getenv("VS_RULE2") != ""           // "already waiting at this op and disabled: nothing to reverse"
+	OptOldRace         = os.Getenv("VS_OLD_RACE") != ""        // Flanagan-Godefroid style backtrack choice instead of source sets
+)
+
+// race: step st (earlier, = e) and the next op n of t are dependent, of co-enabled kinds and
+// unordered. Source-set rule (Abdulla et al., "Optimal dynamic partial order reduction"):
+// let v = the events after e that do not happen-after e, followed by n; some thread that can
+// start v (an initial: its first event in v has no happens-before predecessor in v) must be
+// in the backtrack set of the frame before e.
 func (s *Sched) race(d *DPOR, st stepInfo, t *Thread) {
 	if st.frame < 0 || st.frame >= len(d.Stack) {
 		return
 	}
 	fi := d.Stack[st.frame]
-	if d.DebugRace {
-		fmt.Printf("RACE step(frame %d thr %s kind %s) vs thr %s op %s obj=%v enabledAtPre=%v pendingAt=%v nops=%d\n", st.frame, st.thr.id, kindNames[st.kind], t.id, kindNames[t.pending.kind], opObjs(t.pending), fi.Enabled, fi.PendingAt[t.id], t.nops)
+	if d.DebugRace || DebugRaceAll {
+		fmt.Printf("RACE step(frame %d thr %s kind %s) vs thr %s op %s obj=%v enabledAtPre=%v\n", st.frame, st.thr.id, kindNames[st.kind], t.id, kindNames[t.pending.kind], opObjs(t.pending), fi.Enabled)
 	}
+	if OptOldRace {
+		s.raceOld(d, st, t)
+		return
+	}
+	if OptRule2 {
+		enabledThere := false
+		for _, e := range fi.Enabled {
+			if e == t.id {
+				enabledThere = true
+			}
+		}
+		if at, ok := fi.PendingAt[t.id]; ok && at == t.nops && !enabledThere {
+			return
+		}
+	}
+	ei := s.tidx[st.thr]
+	ev := st.clock[ei]
+	after := func(x stepInfo) bool { return ei < len(x.clock) && x.clock[ei] >= ev } // e -> x
+	ctExt := s.curRaceClk
+	if ctExt == nil {
+		ctExt = s.clockOf(t)
+	}
+	// v = steps after e not happening-after e (indices), then n
+	v := []int{}
+	for j := st.idx + 1; j < len(s.steps); j++ {
+		if !after(s.steps[j]) {
+			v = append(v, j)
+		}
+	}
+	initials := []string{}
+	seen := map[*Thread]bool{}
+	for k, j := range v {
+		x := s.steps[j]
+		if seen[x.thr] {
+			continue
+		}
+		seen[x.thr] = true
+		isInit := true
+		for _, i := range v[:k] {
+			y := s.steps[i]
+			yi := s.tidx[y.thr]
+			if yi < len(x.clock) && x.clock[yi] >= y.clock[yi] { // y -> x
+				isInit = false
+				break
+			}
+		}
+		if isInit {
+			initials = append(initials, x.thr.id)
+		}
+	}
+	if !seen[t] {
+		isInit := true
+		for _, i := range v {
+			y := s.steps[i]
+			yi := s.tidx[y.thr]
+			if yi < len(ctExt) && ctExt[yi] >= y.clock[yi] { // y -> n
+				isInit = false
+				break
+			}
+		}
+		if isInit {
+			initials = append(initials, t.id)
+		}
+	}
+	if DebugRaceAll {
+		fmt.Printf("   v=%v initials=%v backtrack=%v sleep=%v done=%v\n", v, initials, fi.Backtrack, fi.Sleep, fi.Done)
+	}
+	for _, q := range initials {
+		if fi.Backtrack[q] {
+			return // already covered
+		}
+	}
+	for _, q := range initials {
+		for _, e := range fi.Enabled {
+			if e == q {
+				fi.Backtrack[q] = true
+				return
+			}
+		}
+	}
+	// no initial is enabled at the frame (should not happen): be conservative
+	for _, e := range fi.Enabled {
+		fi.Backtrack[e] = true
+	}
+}
+
+// raceOld: the backtrack choice of the first version (rule 1: t enabled -> t; rule 2: t was
+// waiting at this op and disabled -> nothing; rule 3: some enabled thread with a later step
+// that happens-before t's past; else all).
+func (s *Sched) raceOld(d *DPOR, st stepInfo, t *Thread) {
+	fi := d.Stack[st.frame]
 	for _, e := range fi.Enabled {
 		if e == t.id {
 			fi.Backtrack[t.id] = true
 			return
 		}
 	}
-	// t was already waiting at this very op before step st and was disabled there:
-	// st is what enabled it (or is unrelated): nothing to reverse
 	if at, ok := fi.PendingAt[t.id]; ok && at == t.nops {
 		return
 	}
-	// E-set: enabled threads at pre(st) that later executed something that happens-before t's op
 	ct := s.clockOf(t)
 	for j := len(s.steps) - 1; j >= 0; j-- {
 		sj := s.steps[j]
